@@ -96,6 +96,10 @@ class Plot(object):
 
     plain plots: 1 plain name; 2 directory through MakeFilename(dirname="{{dir}}"); 3 a path inside the
     file name and context.output.fileext "dat" for the data file; others through context.output.dirname.
+    The plain chain ends its naming with MakeFilename(dirname="{{dflt}}", fileext="csv") - defaults for values
+    that come without these names: plot 3 takes that directory in odd variants (context.dflt), plot 1 in every
+    fourth variant comes with context.dflt AND an explicit context.output.dirname "" (the top of the output
+    directory - an existing name, to be kept), plot 2 comes with an explicit empty file extension.
     Sources are histograms, graphs, plain strings (by position and `variant`) or objects with a write method.
     """
 
@@ -104,6 +108,7 @@ class Plot(object):
         self.unnamed = False       # bare data without any context: Write's default name "output"
         self.dirname = ""          # where the files are expected, relative to the output directory
         self.ctx_dirname = None    # what context.output.dirname says (an absolute one is made relative by Write)
+        self.dflt = None           # context.dflt: the directory MakeFilename(dirname="{{dflt}}") would give
         self.csvext = "csv"
         self.pngext = pngext
         self.template = None       # context.output.template (takes precedence over RenderLaTeX's default)
@@ -128,6 +133,11 @@ class Plot(object):
                 # the only value of the flow is bare data (no context at all): no name can be made,
                 # Write falls back to its *output_filename* ("output")
                 self.unnamed, self.gname, self.members = True, "output", [None]
+            if p == 1 and variant % 4 == 2 and not self.name_class and not self.unnamed:
+                # an explicitly empty directory name wins over the default directory of the chain
+                self.dflt, self.dirname, self.ctx_dirname = "elsewhere", "", ""
+            if p == 3 and variant % 2 == 1:
+                self.dflt = self.dirname = "d3"     # no directory of its own: the default of the chain
             if p == 2:
                 self.dirname = "sub"       # through MakeFilename(dirname="{{dir}}")
                 self.csvext = ""           # an empty file extension: the data file has no dot
@@ -167,8 +177,10 @@ class Plot(object):
             ctx["grp"] = self.gname
         if not self.grouped and self.p == 2:
             ctx["dir"] = self.dirname
-        elif self.ctx_dirname:
+        elif self.ctx_dirname is not None:
             out["dirname"] = self.ctx_dirname
+        if self.dflt:
+            ctx["dflt"] = self.dflt
         if self.csvext != "csv":
             out["fileext"] = self.csvext
         if self.template:
@@ -289,11 +301,14 @@ class Workspace(object):
         tail = (self.tap_tex,
                 lena.output.Write(outdir, verbose=bool((v + 1) % 2), **kw[st["m2"]]),
                 lena.output.LaTeXToPDF(overwrite=st["lo"], verbose=v % 3, create_command=cmd),
-                lena.output.PDFToPNG(format=png_format(v), overwrite=st["po"], verbose=bool(v % 2)))
+                # (a generous subprocess timeout: the default 60 s can expire on a heavily loaded machine)
+                lena.output.PDFToPNG(format=png_format(v), overwrite=st["po"], verbose=bool(v % 2), timeoutsec=1800))
         if not grouped:
             return lena.core.Sequence(
                 tocsv, self.tap_csv,
                 lena.output.MakeFilename("{{name}}"), lena.output.MakeFilename(dirname="{{dir}}"),
+                # defaults for values that come without a directory / an extension of their own
+                lena.output.MakeFilename(dirname="{{dflt}}", fileext="csv"),
                 write1, render, *tail)
         per_member = (tocsv, self.tap_csv, lena.output.MakeFilename("{{name}}"), write1)
         if variant % 2:
@@ -442,15 +457,20 @@ def run_history(ws, sc, st, steps, same_objects=False, variant=0):
 # order of the predicates along the chain: the first failing one names the violation
 PRIORITY = ["RunRaised", "Yielded", "Current_csv", "Current_tex", "Changed", "Regenerated_pdf", "Current_pdf",
             "Regenerated_png", "Current_png", "NoRedo", "NoRedoPlot"]
-_BAD_RE = re.compile(r'^<<"BAD", (\d+), (\d+), "(\w+)", (\d+)>>', re.M)
+_BAD_RE = re.compile(r'^<<"BAD", (\d+), (\d+), "(\w+)", (\d+), "(\w+)">>', re.M)
+_DEV_RE = re.compile(r'^<<"DEV", (\d+), (\d+), (\d+), "([\w-]+)">>', re.M)
 _END_RE = re.compile(r'^<<"END", (\d+)>>', re.M)
 
 
 def validate_shard(workdir, recs, label):
-    """recs: [{sc, set, runs}].  -> ({history index: [(run index, predicate, plot)]}, stats)"""
+    """recs: [{sc, set, runs}].  -> ({history index: [(run index, predicate, plot, whose, deviation)]}, stats)
+    whose = "design": the pinned design of the chain (spec/OutputSem.tla, RunPlot with a Write that leaves
+    output.changed alone when it creates a file - the known finding) fails the predicate as well in that situation;
+    "other": it does not.  deviation: where along the chain the observation first departs from that design."""
     path = os.path.join(workdir, "%s.json" % label)
     with open(path, "w") as f:
-        json.dump([{"srcs": r["sc"]["srcs"], "obj": r["sc"]["obj"], "set": r["set"], "runs": r["runs"]} for r in recs], f)
+        json.dump([{"srcs": r["sc"]["srcs"], "obj": r["sc"]["obj"], "grouped": bool(r["sc"]["grouped"]), "set": r["set"],
+                    "runs": r["runs"]} for r in recs], f)
     res = core.run_tlc("Trace_Output", "Trace_Output.cfg", workdir, workers=1, env={"TRACE_FILE": path}, timeout=3000)
     os.remove(path)
     stats = {"cfg": "Trace_Output.cfg", "generated": res.generated, "distinct": res.distinct, "wall": res.wall,
@@ -461,8 +481,10 @@ def validate_shard(workdir, recs, label):
         if len(ended) != len(recs):
             stats["exit"] = -1
             stats["tail"] = "only %d of %d histories were consumed by Trace_Output" % (len(ended), len(recs))
-        for hi, j, pred, p in _BAD_RE.findall(res.out):
-            bad.setdefault(int(hi) - 1, []).append((int(j) - 1, pred, int(p)))
+        dev = {(int(hi), int(j), int(p)): w for hi, j, p, w in _DEV_RE.findall(res.out)}
+        for hi, j, pred, p, whose in _BAD_RE.findall(res.out):
+            bad.setdefault(int(hi) - 1, []).append((int(j) - 1, pred, int(p), whose,
+                                                    dev.get((int(hi), int(j), int(p)), "none")))
     return bad, stats
 
 
@@ -533,6 +555,25 @@ def cause(rec, j, pred, p):
     if pred == "Current_png":
         return "png=" + a["png"]
     return "?"
+
+
+def verdict_key(rec, verdicts):
+    """The violation key of a rejected history -> (key, run, plot).
+
+    A failed predicate that the pinned design of the chain does NOT fail in the same situation ("other") is
+    not the known finding: the first run with such a verdict counts (every run is judged from the observed
+    state before it, and so is the design), of its verdicts the one earliest along the chain, and the key
+    also says where the run first departed from the design.  Only when every failed predicate of the
+    history is one the pinned design fails as well, the key is that of the first run with a verdict
+    (later runs start from a state that is already wrong) and of the predicate earliest in the chain."""
+    other = [v for v in verdicts if v[3] == "other"]
+    pool = other or verdicts
+    first = min(v[0] for v in pool)
+    j, pred, p, whose, dev = min((v for v in pool if v[0] == first), key=lambda v: (PRIORITY.index(v[1]), v[2]))
+    key = "Output:%s:%s" % (pred, cause(rec, j, pred, p))
+    if whose == "other" and pred not in ("RunRaised", "Yielded"):     # (those two say nothing about the design)
+        key += ":" + dev
+    return key, j, p
 
 
 MAX_JVMS = 6
@@ -635,11 +676,7 @@ def check_histories(ctx, items, what, min_shard=40):
         ctx.traces += ok
         ctx.distinct.update(o["hashes"])
         for rec, verdicts in o["bad"]:
-            # only the first run with a verdict counts (later runs start from a state that is already
-            # wrong), and of its verdicts the one earliest in the chain (the others follow from it)
-            first = min(j for j, _, _ in verdicts)
-            j, pred, p = min((v for v in verdicts if v[0] == first), key=lambda v: (PRIORITY.index(v[1]), v[2]))
-            key = "Output:%s:%s" % (pred, cause(rec, j, pred, p))
+            key, j, p = verdict_key(rec, verdicts)
             found.setdefault(key, []).append((rec, j, p))
         for r in o["samples"]:
             ctx.sample({"recorded_history_%s" % what: {k: r[k] for k in ("sc", "set", "runs")}}, limit=5)
